@@ -22,8 +22,6 @@ type HistFamily struct {
 	Name  string
 	N     int64
 	Calls func(i int64) []Call
-	// PurityDepth: totality/purity is run on the final state of these histories.
-	Purity bool
 }
 
 func pow(a int64, k int) int64 {
@@ -60,7 +58,7 @@ func Histories(tier string) []HistFamily {
 		d := d
 		fs = append(fs, HistFamily{
 			Name: fmt.Sprintf("builder calls, depth %d", d), N: pow(A, d),
-			Calls: func(i int64) []Call { return digits(i, d) }, Purity: d <= 3,
+			Calls: func(i int64) []Call { return digits(i, d) },
 		})
 	}
 	for k := 0; k <= Ds; k++ {
@@ -70,7 +68,7 @@ func Histories(tier string) []HistFamily {
 			Calls: func(i int64) []Call {
 				s := shapes[i/pow(A, k)]
 				return append([]Call{s.call()}, digits(i%pow(A, k), k)...)
-			}, Purity: k <= 1,
+			},
 		})
 	}
 	for d := 1; d <= Dr; d++ {
@@ -83,7 +81,7 @@ func Histories(tier string) []HistFamily {
 					out := append([]Call{}, cs[:d]...)
 					out = append(out, reparse())
 					return append(out, cs[d:]...)
-				}, Purity: false,
+				},
 			})
 		}
 	}
@@ -141,24 +139,51 @@ func issueClasses(is []Issue) map[string]string {
 
 // classifyGeometry names the root-cause signature of a geometry mismatch introduced by the
 // last call of the history (the state before it agreed with its model).
-func classifyGeometry(prevP *canvas.Path, prevM, m *Model, p *canvas.Path) string {
-	// 1. the pen of the real path was not where the request left it
+func classifyGeometry(calls []Call, prevP *canvas.Path, prevM, m *Model, p *canvas.Path) string {
+	// 0. the last call is a whole-path source (shape constructor)
+	last := calls[len(calls)-1].Name
+	for _, s := range Shapes() {
+		if s.Name == last {
+			return "geometry:shape:" + last[:strings.IndexByte(last, '(')]
+		}
+	}
+	// 1a. the request before the last call ends in "MoveTo, Close": a closed subpath without
+	// segments; what is drawn (or closed) next belongs to a new subpath at that point
+	if pl := prevM.last(); pl != nil && pl.Closed {
+		drawn := false
+		for _, s := range pl.Segs {
+			if s.Kind != oracle.CmdClose {
+				drawn = true
+			}
+		}
+		if !drawn {
+			return "geometry:close-of-lone-moveto-forgotten"
+		}
+	}
+	// 1b. the pen of the real path was not where the request left it
 	pos := prevP.Pos()
 	mp := prevM.Pos()
 	if math.Abs(pos.X-mp.X) > 1e-9 || math.Abs(pos.Y-mp.Y) > 1e-9 {
 		return "geometry:pen-position-lost"
 	}
-	// 2. the last requested piece is a straight line that turns back over the previous
-	// straight piece, and the path did not get a new command for it
-	if l := m.last(); l != nil && len(p.Data()) <= len(prevP.Data()) {
-		var segs []RSeg
-		for _, s := range l.Segs {
+	// 2. the first piece requested by the last call is a straight line that turns back over
+	// the previous straight piece of the same subpath
+	if pl := prevM.last(); pl != nil && !pl.Closed && len(m.Subs) >= len(prevM.Subs) {
+		cur := m.Subs[len(prevM.Subs)-1]
+		var before []RSeg
+		for _, s := range pl.Segs {
 			if !s.ZeroLength(0) {
-				segs = append(segs, s)
+				before = append(before, s)
 			}
 		}
-		if n := len(segs); n >= 2 {
-			a, b := segs[n-2], segs[n-1]
+		var after []RSeg
+		for _, s := range cur.Segs[len(pl.Segs):] {
+			if !s.ZeroLength(0) {
+				after = append(after, s)
+			}
+		}
+		if len(before) > 0 && len(after) > 0 {
+			a, b := before[len(before)-1], after[0]
 			da, db := a.P1.Sub(a.P0), b.P1.Sub(b.P0)
 			if straight(a) && straight(b) && math.Abs(da.Cross(db)) <= 1e-12*da.Len()*db.Len() && da.Dot(db) < 0 {
 				return "geometry:line-reversal-merged"
@@ -191,17 +216,32 @@ func straight(s RSeg) bool {
 	return false
 }
 
-var seenPurity = map[string]struct{}{}
+// violate reports a violation but keeps at most perClassCap reports per class and worker
+// process (the framework keeps 200 violations per worker in total; one root cause that fires on
+// every state must not crowd out the others). The enumeration is simplest-first, so the ones
+// kept are the smallest. Suppressed ones are counted.
+const perClassCap = 6
 
-// checkHistory is the per-history check: validator on the final state, model agreement of the
-// last transition, and (for the short histories) totality/purity on the state.
-func checkHistory(r *fw.R, calls []Call, purity bool) {
+var classCount = map[string]int{}
+
+func violate(r *fw.R, class, detail string) {
+	classCount[class]++
+	r.Count("violations of class "+class, 1)
+	if classCount[class] > perClassCap {
+		return
+	}
+	r.Violate(class, detail)
+}
+
+// checkHistory is the per-history check: validator on the final state and model agreement of
+// the last transition.
+func checkHistory(r *fw.R, calls []Call) {
 	var p *canvas.Path
 	var m *Model
 	func() {
 		defer func() {
 			if e := recover(); e != nil {
-				r.Violate("panic:builder", fmt.Sprintf("%v", e))
+				violate(r, "panic:builder", fmt.Sprintf("%v", e))
 				p = nil
 			}
 		}()
@@ -210,9 +250,7 @@ func checkHistory(r *fw.R, calls []Call, purity bool) {
 	if p == nil {
 		return
 	}
-	r.Count("histories", 1)
-	key := Key(p.Data())
-	r.Nontrivial(key)
+	r.Nontrivial(Key(p.Data()))
 
 	var prevP *canvas.Path
 	var prevM *Model
@@ -225,10 +263,8 @@ func checkHistory(r *fw.R, calls []Call, purity bool) {
 
 	// (a) well-formedness
 	is, info := Validate(p.Data())
-	r.Count("validator:subpaths", int64(info.Subpaths))
 	r.Count("validator:segments", int64(info.Segments))
 	r.Count("validator:arcs", int64(info.Arcs))
-	r.Count("validator:closes", int64(info.Closes))
 	r.Count("validator:zero-length-closes", int64(info.ZeroLengthCloses))
 	r.Count("validator:lone-moves", int64(info.LoneMoves))
 	if len(is) == 0 {
@@ -237,14 +273,15 @@ func checkHistory(r *fw.R, calls []Call, purity bool) {
 		pp, _ := prev()
 		was, _ := Validate(pp.Data())
 		old := issueClasses(was)
-		for class, detail := range issueClasses(is) {
+		now := issueClasses(is)
+		for class, detail := range now {
 			if _, inherited := old[class]; inherited {
 				r.Outcome("inherited:" + class)
 				continue
 			}
-			r.Violate(class, detail+"; data="+oracle.Fmt(p.Data()))
+			violate(r, class, detail+"; data="+oracle.Fmt(p.Data()))
 		}
-		if issueClasses(is)["undecodable-forward"] != "" || issueClasses(is)["undecodable-backward"] != "" || issueClasses(is)["structure"] != "" || issueClasses(is)["non-finite-value"] != "" {
+		if now["undecodable-forward"] != "" || now["undecodable-backward"] != "" || now["structure"] != "" || now["non-finite-value"] != "" {
 			return
 		}
 	}
@@ -261,7 +298,7 @@ func checkHistory(r *fw.R, calls []Call, purity bool) {
 			r.Validated++
 			r.Max("geometry: worst directed deviation / scale", worst/scale)
 			r.Max("geometry: worst Hausdorff / scale", hd/scale)
-			nreq, nreal := 0, 0
+			nreq := 0
 			for _, s := range m.Subs {
 				for _, g := range s.Segs {
 					if g.Kind != oracle.CmdClose {
@@ -269,7 +306,7 @@ func checkHistory(r *fw.R, calls []Call, purity bool) {
 					}
 				}
 			}
-			nreal = info.Segments - info.Closes
+			nreal := info.Segments - info.Closes
 			switch {
 			case nreal < nreq:
 				r.Outcome("agrees:commands dropped or merged")
@@ -288,39 +325,116 @@ func checkHistory(r *fw.R, calls []Call, purity bool) {
 				}
 			}
 			if msg != "" {
-				class := classifyGeometry(pp, pm, m, p)
-				r.Violate(class, fmt.Sprintf("%s; before the last call: %s; after: %s", msg, oracle.Fmt(pp.Data()), oracle.Fmt(p.Data())))
+				class := classifyGeometry(calls, pp, pm, m, p)
+				violate(r, class, fmt.Sprintf("%s; before the last call: %s; after: %s", msg, oracle.Fmt(pp.Data()), oracle.Fmt(p.Data())))
 			}
-		}
-	}
-
-	// (c) totality and purity on every distinct state
-	if purity {
-		if _, seen := seenPurity[key]; seen && !replaying {
-			r.Outcome("purity:state already checked in this worker")
-			return
-		}
-		seenPurity[key] = struct{}{}
-		r.Count("purity: states checked (distinct per worker)", 1)
-		fs := CheckTotalityPurity(func() *canvas.Path { q, _ := Build(calls); return q })
-		r.Count("purity: method invocations", int64(NumPureCalls()))
-		if len(fs) == 0 {
-			r.Outcome("purity:all methods total and pure")
-		}
-		seen := map[string]bool{}
-		for _, f := range fs {
-			if seen[f.Class] {
-				continue
-			}
-			seen[f.Class] = true
-			r.Violate(f.Class, f.Detail)
 		}
 	}
 }
 
-// replaying is set for single-case replays (never skip a state there). In a replay process the
-// seen map is empty anyway; the flag only documents the intent.
-var replaying = false
+// ---------------------------------------------------------------------------------------------
+// totality and purity on every distinct state
+
+// purityHistories: the histories whose final states get the totality/purity pass: all builder
+// histories up to depth 3 and every shape followed by at most one call.
+var purityHist []HistFamily
+
+func purityHistories() []HistFamily {
+	if purityHist != nil {
+		return purityHist
+	}
+	var out []HistFamily
+	for _, h := range Histories("quick") {
+		if strings.HasPrefix(h.Name, "builder calls") || strings.HasPrefix(h.Name, "shape constructor") {
+			out = append(out, h)
+		}
+	}
+	purityHist = out
+	return out
+}
+
+// firstIndex maps a state key to the index of the first (simplest) history of the purity
+// enumeration that reaches it; built once per process (about a quarter of a million builder
+// replays, well under a second).
+var firstIndex map[string]int64
+var purityOffsets []int64 // start index of each history family in the concatenated enumeration
+
+func purityN() int64 {
+	n := int64(1) // index 0 is the empty path
+	for _, h := range purityHistories() {
+		n += h.N
+	}
+	return n
+}
+
+func purityCalls(i int64) []Call {
+	if i == 0 {
+		return nil
+	}
+	i--
+	for _, h := range purityHistories() {
+		if i < h.N {
+			return h.Calls(i)
+		}
+		i -= h.N
+	}
+	return nil
+}
+
+func buildFirstIndex() {
+	firstIndex = map[string]int64{}
+	n := purityN()
+	for i := int64(0); i < n; i++ {
+		var k string
+		func() {
+			defer func() {
+				if recover() != nil {
+					k = fmt.Sprintf("panic#%d", i)
+				}
+			}()
+			k = Key(BuildReal(purityCalls(i)).Data())
+		}()
+		if _, ok := firstIndex[k]; !ok {
+			firstIndex[k] = i
+		}
+	}
+}
+
+func checkPurity(r *fw.R, i int64, tier string) {
+	if firstIndex == nil {
+		buildFirstIndex()
+	}
+	calls := purityCalls(i)
+	key := Key(BuildReal(calls).Data())
+	if firstIndex[key] != i {
+		r.Outcome("purity:duplicate state (checked at its first history)")
+		return
+	}
+	r.NontrivialIdx()
+	coreOnly := tier == "quick" && len(calls) >= 3
+	fs, extras := CheckTotalityPurity(func() *canvas.Path { return BuildReal(calls) }, coreOnly)
+	r.Count("purity: distinct states checked", 1)
+	r.Count("purity: method invocations", int64(NumPureCalls(coreOnly)))
+	if len(fs) == 0 {
+		r.Outcome("purity:all listed methods total and pure")
+	}
+	seen := map[string]bool{}
+	for _, f := range fs {
+		if seen[f.Class] {
+			continue
+		}
+		seen[f.Class] = true
+		r.Outcome("purity:" + f.Class)
+		violate(r, f.Class, f.Detail)
+	}
+	for _, f := range extras {
+		if seen["x"+f.Class] {
+			continue
+		}
+		seen["x"+f.Class] = true
+		r.Outcome("unlisted-method:" + f.Class)
+	}
+}
 
 func families(tier string) []fw.Family {
 	var out []fw.Family
@@ -328,10 +442,15 @@ func families(tier string) []fw.Family {
 		h := h
 		out = append(out, fw.Family{
 			Name: h.Name, N: h.N,
-			Check: func(i int64, r *fw.R) { checkHistory(r, h.Calls(i), h.Purity) },
+			Check: func(i int64, r *fw.R) { checkHistory(r, h.Calls(i)) },
 			Desc:  func(i int64) string { return names(h.Calls(i)) },
 		})
 	}
+	out = append(out, fw.Family{
+		Name: "totality and purity on every distinct state (builder depth <= 3, shapes + <= 1 call)", N: purityN(),
+		Check: func(i int64, r *fw.R) { checkPurity(r, i, tier) },
+		Desc:  func(i int64) string { return names(purityCalls(i)) },
+	})
 	return out
 }
 
@@ -349,13 +468,73 @@ func Prop() *fw.Property {
 			"zero means |x| <= 1e-10 (canvas' documented Epsilon) in the zero-length-segment clause; arcs within 1e-9 of the radii-fit-the-chord limit are evaluated as half ellipses; requests within 1e-6 below that limit are skipped as ill-conditioned (none in these menus)",
 			"shape models take start point and direction conventions from the constructors (origin / (0,r) / (rx,0) / top vertex, counter clockwise)",
 			"purity is observed on Data() and on the argument objects handed in; aliasing of results with the receiver (Split, Dash with no pattern, Reverse of an empty path) is not a violation by itself",
-			"the purity pass skips a state already checked in the same worker process (states are rechecked at most once per worker)",
+			"quick tier: depth-3 states get the core subset of the method list (28 of 70 invocations), shallower states and the thorough tier the full list",
+			"Clip, FastClip, SimplifyVisvalingamWhyatt, Markers, GobEncode are called too but only tallied (not in the property's list; Clip panics with \"not implemented\" on curves)",
 			"termination is judged by the framework watchdog (60 s per history)",
 		},
-		Families: families,
-		Customs:  customs,
-		KnownPredicates: map[string]func(v *fw.Violation) bool{
-			"any": func(v *fw.Violation) bool { return true },
-		},
+		Families:        families,
+		Customs:         customs,
+		KnownPredicates: knownPredicates(),
 	}
 }
+
+// knownPredicates: one named matcher per root cause found on the pinned tree (for
+// known_findings.json; the file itself is maintained by the lead). Classes are already
+// root-cause specific; the validator class zero-length-segment is attributed to the line
+// reversal defect only when the history really is a reversal.
+func knownPredicates() map[string]func(v *fw.Violation) bool {
+	classIs := func(cs ...string) func(v *fw.Violation) bool {
+		return func(v *fw.Violation) bool {
+			for _, c := range cs {
+				if v.Class == c {
+					return true
+				}
+			}
+			return false
+		}
+	}
+	isReversal := func(v *fw.Violation) bool {
+		calls, ok := parseNames(v.Case)
+		if !ok || len(calls) == 0 {
+			return false
+		}
+		defer func() { recover() }()
+		pp, pm := Build(calls[:len(calls)-1])
+		p, m := Build(calls)
+		return classifyGeometry(calls, pp, pm, m, p) == "geometry:line-reversal-merged"
+	}
+	return map[string]func(v *fw.Violation) bool{
+		"lineto-merges-reversal": func(v *fw.Violation) bool {
+			return v.Class == "geometry:line-reversal-merged" || (v.Class == "zero-length-segment" && isReversal(v))
+		},
+		"close-deletes-lone-moveto":          classIs("geometry:pen-position-lost", "panic:canvas.(*Path).replace: runtime error: index out of range [#] with length #"),
+		"grid-translates-cell-in-place":      classIs("geometry:shape:Grid"),
+		"dash-edits-pattern-slice":           classIs("argument-slice-mutated:Dash"),
+		"boolean-op-closes-clipping-path":    classIs("clipping-path-mutated:boolean-op", "subject-and-clipping-path-mutated:boolean-op", "Paths-argument-path-mutated:boolean-op"),
+		"boolean-op-rewrites-paths-slice":    classIs("Paths-argument-elements-replaced:boolean-op"),
+		"paths-element-with-trailing-moveto": classIs("panic:canvas.(*SweepEvents).AddPathEndpoints: non-flat paths not supported"),
+		"sweep-next-node-nil":                classIs("panic:canvas.bentleyOttmann: next node for result polygon is nil, probably buggy intersection code"),
+		"stroke-inner-bend-index":            classIs("panic:canvas.(*Path).optimizeInnerBend: runtime error: index out of range [#] with length #"),
+	}
+}
+
+// ---------------------------------------------------------------------------------------------
+// state generator shared with C11
+
+// StateN is the size of the enumeration of short histories (index 0 = empty path, then all
+// builder histories of depth 1..3, then every shape followed by at most one call).
+func StateN() int64 { return purityN() }
+
+// StateCalls returns history i of that enumeration.
+func StateCalls(i int64) []Call { return purityCalls(i) }
+
+// StateIsFirst reports whether history i is the first (simplest) one reaching its state.
+func StateIsFirst(i int64, p *canvas.Path) bool {
+	if firstIndex == nil {
+		buildFirstIndex()
+	}
+	return firstIndex[Key(p.Data())] == i
+}
+
+// Names renders a history.
+func Names(calls []Call) string { return names(calls) }
